@@ -26,17 +26,34 @@ theorem scale_optimum (k : K) (hk : 0 < k) (i : Inp K) (z : K) :
     (∃ x, Feasible (buildLP (scaleInp k i) .toHumans) x ∧ x .objective = z) :=
   Proofs.Perturb.scale_optimum k hk i z
 
-/-! ## monotonicity in supplies (fixed feed and biofuel charge) -/
+/-! ## monotonicity in supplies (fixed feed and biofuel charge)
+
+Statement corrections (the first versions were false as written):
+* `hlim` — non-negative *human intake limits*.  With a negative limit the row
+  `…_Limit_Reduced_Population_HUMANS` (`food·ratio ≤ lim/100 · consumed·bkn/100`) tightens when the
+  month's percent fed rises, and more supply can make the programme infeasible:
+  `limits_needed_counterexample` below (SCP on, `limScpH = −100`, `pop = 0`, `bkn = 100`, milk
+  `[] → [1]`: the zero point is feasible before, nothing is feasible after).  The same instance
+  with stored food / crops added refutes the other three theorems without `hlim`.
+* `hb : 0 ≤ billionKcalsNeeded` for the stock and crop theorems.  With a negative requirement the
+  percent fed *falls* when people eat more; 2 months, stored food only, storage between years,
+  `bkn = −100`, stock `0 → 1`: the zero point is feasible before; afterwards the stock must be
+  eaten (`Stored_Food_End_1 = 0`, feed and biofuel pinned to 0) but `consumed m = −humans m ≥ 0`
+  forces `humans m = 0` — infeasible. -/
 
 theorem mono_storedInitial (i : Inp K) (d : K) (hd : 0 ≤ d) (hw0 : 0 ≤ i.wStored) (hw : i.wStored < 100)
-    (hN : 2 ≤ i.nmonths) (x : Var → K) (h : Feasible (buildLP i .toHumans) x) :
+    (hN : 2 ≤ i.nmonths) (hb : 0 ≤ i.billionKcalsNeeded)
+    (hlim : 0 ≤ i.limSwH ∧ 0 ≤ i.limScpH ∧ 0 ≤ i.limCsH)
+    (x : Var → K) (h : Feasible (buildLP i .toHumans) x) :
     ∃ x', Feasible (buildLP { i with storedInitial := i.storedInitial + d } .toHumans) x' ∧ x .objective ≤ x' .objective :=
-  Proofs.Perturb.mono_storedInitial i d hd hw0 hw hN x h
+  Proofs.Perturb.mono_storedInitial i d hd hw0 hw hN hb hlim x h
 
 theorem mono_cropProd (i : Inp K) (prod' : List K) (hp : SeriesLe i.cropProd prod') (hw0 : 0 ≤ i.wCrop) (hw : i.wCrop < 100)
-    (hN : 2 ≤ i.nmonths) (x : Var → K) (h : Feasible (buildLP i .toHumans) x) :
+    (hN : 2 ≤ i.nmonths) (hb : 0 ≤ i.billionKcalsNeeded)
+    (hlim : 0 ≤ i.limSwH ∧ 0 ≤ i.limScpH ∧ 0 ≤ i.limCsH)
+    (x : Var → K) (h : Feasible (buildLP i .toHumans) x) :
     ∃ x', Feasible (buildLP { i with cropProd := prod' } .toHumans) x' ∧ x .objective ≤ x' .objective :=
-  Proofs.Perturb.mono_cropProd i prod' hp hw0 hw hN x h
+  Proofs.Perturb.mono_cropProd i prod' hp hw0 hw hN hb hlim x h
 
 theorem mono_scp (i : Inp K) (s' : List K) (hp : SeriesLe i.scp s') (x : Var → K) (h : Feasible (buildLP i .toHumans) x) :
     ∃ x', Feasible (buildLP { i with scp := s' } .toHumans) x' ∧ x .objective ≤ x' .objective :=
@@ -56,11 +73,19 @@ theorem mono_meat (i : Inp K) (total' : K) (cap' sl' : List K) (ht : i.meatSumme
 
 /-- milk, fish, greenhouse output (they enter only the monthly human total) -/
 theorem mono_constants (i : Inp K) (milk' fish' gh' : List K) (hm : SeriesLe i.milk milk') (hf : SeriesLe i.fish fish')
-    (hg : SeriesLe i.greenhouse gh') (hb : 0 < i.billionKcalsNeeded) (x : Var → K)
+    (hg : SeriesLe i.greenhouse gh') (hb : 0 < i.billionKcalsNeeded)
+    (hlim : 0 ≤ i.limSwH ∧ 0 ≤ i.limScpH ∧ 0 ≤ i.limCsH) (x : Var → K)
     (h : Feasible (buildLP i .toHumans) x) :
     ∃ x', Feasible (buildLP { i with milk := milk', fish := fish', greenhouse := gh' } .toHumans) x' ∧
       x .objective ≤ x' .objective :=
-  Proofs.Perturb.mono_constants i milk' fish' gh' hm hf hg hb x h
+  Proofs.Perturb.mono_constants i milk' fish' gh' hm hf hg hb hlim x h
+
+/-- why `hlim` is there: with a negative human intake limit more milk makes the LP infeasible -/
+theorem limits_needed_counterexample :
+    ∃ (i : Inp ℚ) (milk' : List ℚ) (x : Var → ℚ), SeriesLe i.milk milk' ∧
+      0 < i.billionKcalsNeeded ∧ Feasible (buildLP i .toHumans) x ∧
+      ¬ ∃ x', Feasible (buildLP { i with milk := milk' } .toHumans) x' :=
+  Proofs.Perturb.limits_needed_counterexample
 
 /-! ## the feed and biofuel charge
 
@@ -68,14 +93,19 @@ Full statement wanted: lowering the charge (pointwise) never lowers the optimum,
 Proved here without seaweed (`addSeaweed = false`): with seaweed the density ceiling can make the
 harvest that was fed to animals compulsory, and giving it to people may hit their intake cap —
 that case is only covered by the empirical perturbation runs of the check (C12 is `partial` there).
+`hlim` (non-negative human intake limits of SCP and sugar) was added: the freed stored food and
+crops are eaten by people, the percent fed rises, and a negative limit would then bite (2 months,
+stored food + SCP, `limScpH = −100`, `pop = 0`, storage between years, stock 2, feed `[1,1] → [0,0]`:
+the stock must now be eaten by people, so some month has percent fed > 0 and SCP to people < 0).
 Waste percentages: decreasing a waste percentage is likewise covered only empirically. -/
 
 theorem charge_antitone_partial (i : Inp K) (feed' biofuel' : List K) (hs : i.addSeaweed = false)
     (hf : SeriesLe feed' i.feed) (hb : SeriesLe biofuel' i.biofuel)
     (hf0 : ∀ m, 0 ≤ at' feed' m) (hb0 : ∀ m, 0 ≤ at' biofuel' m)
     (hwS0 : 0 ≤ i.wStored) (hwS : i.wStored < 100) (hwC0 : 0 ≤ i.wCrop) (hwC : i.wCrop < 100)
-    (hbkn : 0 < i.billionKcalsNeeded) (x : Var → K) (h : Feasible (buildLP i .toHumans) x) :
+    (hbkn : 0 < i.billionKcalsNeeded) (hlim : 0 ≤ i.limScpH ∧ 0 ≤ i.limCsH)
+    (x : Var → K) (h : Feasible (buildLP i .toHumans) x) :
     ∃ x', Feasible (buildLP { i with feed := feed', biofuel := biofuel' } .toHumans) x' ∧ x .objective ≤ x' .objective :=
-  Proofs.Perturb.charge_antitone_partial i feed' biofuel' hs hf hb hf0 hb0 hwS0 hwS hwC0 hwC hbkn x h
+  Proofs.Perturb.charge_antitone_partial i feed' biofuel' hs hf hb hf0 hb0 hwS0 hwS hwC0 hwC hbkn hlim x h
 
 end Allfed.C12
